@@ -274,6 +274,15 @@ def run_patterns(payload):
                 res["py_error"] = str(exc)
                 results.append(res)
                 continue
+            if re.search(r"\\\\[A-Za-z]", res["translate"]["ok"]):
+                # xmlschema/elementpath mis-reads an escaped backslash followed by a letter
+                # inside the pattern (e.g. ``[^y\\\\c]`` is taken as the class escape ``\\c``):
+                # a quirk of the third-party validator, not of the generated pattern, so no
+                # verdicts are sampled for such patterns (counted as validator_quirk).
+                res["validator_quirk"] = True
+                res["verdicts"] = []
+                results.append(res)
+                continue
             v10, v11, err = facet_validators(res["translate"]["ok"])
             if err is not None:
                 res["facet_error"] = err
